@@ -1,6 +1,8 @@
 package props
 
 import (
+	"strings"
+	"reflect"
 	"fmt"
 	"go/token"
 	"go/types"
@@ -416,5 +418,280 @@ func c16NoIdentity(p *load.Prog, r *oblig.Run) {
 		default:
 			o.Fail(load.FuncName(fn) + " hands back the input it was given (return at " + where + ") where it has to answer with the value it computes: for the inputs that take this path (an empty list, a nil slice) the result has the type and content of the input, not of the documented result (an accessor applied to an empty list of individuals gives an empty list of individuals instead of an empty list of names)")
 		}
+	}
+}
+
+// c16NilResults (R16.l): where the query functions answer with the untyped nil. `nil` is a value of the language
+// (Length of it is 1, an accessor of it is nil, a pipe hands it on), so a function that answers nil for one more
+// class of inputs - an empty list that happens to be a nil slice, a stage in the middle of a pipe - changes what
+// the query computes. Every `return nil, nil` of an Evaluate method must be reached only on paths that established
+// one of the reviewed conditions of that method (facts on every path, edge cut over the CFG; conditions normalised).
+// LengthExpr additionally: the only non-constant answer is Len() under Kind()==Slice and the only constant one is 1.
+func c16NilResults(p *load.Prog, r *oblig.Run) {
+	r.Rule("R16.l", "an Evaluate method answers (nil, nil) only under the reviewed condition of that function; Length answers Len() only for slices and 1 otherwise", 8)
+	kindSlice := fmt.Sprintf("%d", int(reflect.Slice))
+	// reviewed on the pinned tree: method -> atoms (with truth value) one of which must hold on every path to a nil answer
+	type want struct {
+		atom string
+		val  bool
+	}
+	in := "Value.Kind(ValueOf(p2))"
+	allowed := map[string][]want{
+		"AccessorExpr":     {{"nil==p2", true}},
+		"CombineExpr":      {{"0==len(p3)", true}},
+		"FirstExpr":        {{"nil==p2", true}, {"Value.IsNil(", true}},
+		"LastExpr":         {{"nil==p2", true}, {"Value.IsNil(", true}},
+		"OnlyExpr":         {{kindSlice + "==" + in, false}},
+		"QuestionMarkExpr": {{"*", true}},
+	}
+	var fns []*ssa.Function
+	for _, fn := range p.Repo {
+		if fn.Name() == "Evaluate" && pkgPathOf(fn) == load.PkgQ && fn.Synthetic == "" && len(fn.Blocks) > 0 && fn.Signature.Recv() != nil && fn.Signature.Results().Len() == 2 {
+			fns = append(fns, fn)
+		}
+	}
+	sort.Slice(fns, func(i, j int) bool { return fns[i].String() < fns[j].String() })
+	isNilConst := func(v ssa.Value) bool {
+		k, ok := v.(*ssa.Const)
+		return ok && k.Value == nil
+	}
+	for _, fn := range fns {
+		recvName := ""
+		if n := load.NamedOf(fn.Signature.Recv().Type()); n != nil {
+			recvName = n.Obj().Name()
+		}
+		env := &descEnv{p: p, params: map[*ssa.Parameter]string{}, noInline: true}
+		ord := 0
+		for _, b := range fn.Blocks {
+			ret, ok := b.Instrs[len(b.Instrs)-1].(*ssa.Return)
+			if !ok || len(ret.Results) != 2 {
+				continue
+			}
+			// the pair (nil, nil), also when it arrives through a phi edge
+			type cand struct {
+				blk *ssa.BasicBlock
+				via *ssa.BasicBlock
+			}
+			var cands []cand
+			switch {
+			case isNilConst(ret.Results[0]) && isNilConst(ret.Results[1]):
+				cands = append(cands, cand{b, nil})
+			default:
+				ph0, isPh0 := ret.Results[0].(*ssa.Phi)
+				if isPh0 && ph0.Block() == b {
+					for i, e := range ph0.Edges {
+						errNil := isNilConst(ret.Results[1])
+						if ph1, isPh1 := ret.Results[1].(*ssa.Phi); isPh1 && ph1.Block() == b {
+							errNil = isNilConst(ph1.Edges[i])
+						}
+						if isNilConst(e) && errNil {
+							cands = append(cands, cand{b.Preds[i], b})
+						}
+					}
+				}
+			}
+			for _, c := range cands {
+				ord++
+				o := r.Add("R16.l", fmt.Sprintf("nil answer #%d of %s", ord, load.FuncName(fn)), p.Pos(ret.Pos()), "condition of the untyped nil answer")
+				ws, known := allowed[recvName]
+				if !known {
+					var have []string
+					for _, f := range env.blockFacts(c.blk, 0) {
+						have = append(have, f.String())
+					}
+					o.Fail(load.FuncName(fn)+" answers with the untyped nil (no error) although the documented semantics of this expression has no nil answer: the rest of the pipe then works on nil (Length gives 1, accessors give nil) instead of the value the expression computes", "facts on every path: "+strings.Join(have, " ; "))
+					continue
+				}
+				match := func(f cfact) bool {
+					for _, w := range ws {
+						if w.atom == "*" {
+							return true
+						}
+						if f.val == w.val && (f.atom == w.atom || (strings.HasSuffix(w.atom, "(") && strings.HasPrefix(f.atom, w.atom))) {
+							return true
+						}
+					}
+					return false
+				}
+				okc := ws[0].atom == "*" || env.holdsAny(c.blk, match)
+				if !okc && c.via != nil {
+					// the edge into the return block itself
+					if iff, isIf := c.blk.Instrs[len(c.blk.Instrs)-1].(*ssa.If); isIf {
+						for _, f := range env.condFacts(iff.Cond, c.blk.Succs[0] == c.via, 0) {
+							if match(f) {
+								okc = true
+							}
+						}
+					}
+				}
+				if okc {
+					o.OK("reached only under the reviewed condition")
+				} else {
+					var have []string
+					for _, f := range env.blockFacts(c.blk, 0) {
+						have = append(have, f.String())
+					}
+					o.Fail(load.FuncName(fn)+" answers with the untyped nil on a path that did not establish the condition under which this function may do so: inputs of one more class (an empty list held as a nil slice, a nil produced in the middle of a pipe) now give nil instead of the documented result, and what follows in the pipe sees nil (Length = 1)", "facts on every path: "+strings.Join(have, " ; "))
+				}
+			}
+		}
+		if recvName == "LengthExpr" {
+			o := r.Add("R16.l", "answers of LengthExpr.Evaluate", p.Pos(fn.Pos()), "Len() for slices, 1 otherwise")
+			bad := ""
+			n := 0
+			for _, b := range fn.Blocks {
+				ret, ok := b.Instrs[len(b.Instrs)-1].(*ssa.Return)
+				if !ok || len(ret.Results) != 2 {
+					continue
+				}
+				vals := []ssa.Value{ret.Results[0]}
+				blks := []*ssa.BasicBlock{b}
+				if ph, isPhi := ret.Results[0].(*ssa.Phi); isPhi && ph.Block() == b {
+					vals, blks = ph.Edges, b.Preds
+				}
+				for i, v := range vals {
+					n++
+					if mi, isMI := v.(*ssa.MakeInterface); isMI {
+						v = mi.X
+					}
+					if k, isK := su.ConstInt(v); isK {
+						if k != 1 {
+							bad = fmt.Sprintf("a constant answer %d", k)
+						}
+						continue
+					}
+					d := env.desc(v, 0)
+					if !strings.HasPrefix(d, "Value.Len(") {
+						bad = "an answer that is neither 1 nor the Len() of the input (" + d + ")"
+						continue
+					}
+					if !env.holdsAny(blks[i], func(f cfact) bool { return f.val && f.atom == kindSlice+"=="+in }) {
+						bad = "Len() of an input that was not found to be a slice on every path (maps, arrays, strings, channels have a Len too)"
+					}
+				}
+			}
+			switch {
+			case n == 0:
+				o.Unknown("no return found")
+			case bad != "":
+				o.Fail("Length gives " + bad + ": the documented result is the number of elements of a list and 1 for anything else (an object built by the query is a map: its Length is 1, not its number of fields)")
+			default:
+				o.OK("Len() under Kind()==Slice, 1 otherwise")
+			}
+		}
+	}
+}
+
+// c16MapLoops (R16.m): an expression applied to a list maps over its elements: the loop that evaluates the
+// expression itself on each element (the recursive e.Evaluate(engine, in.Index(i)...)) appends exactly one result
+// per element - every path through the loop body that goes on to the next element passes through an append of
+// that element's result, and the element handed down is the one at the loop counter. A path that skips the append
+// (a `continue` for nil results) makes the result shorter than the input and shifts every later entry.
+func c16MapLoops(p *load.Prog, r *oblig.Run) {
+	r.Rule("R16.m", "a loop that maps an expression over a list appends one result for every element (no path to the next element skips the append)", 3)
+	// every method of package q (an Evaluate method or a helper the mapping loop was moved into)
+	var fns []*ssa.Function
+	for _, fn := range p.Repo {
+		if pkgPathOf(fn) == load.PkgQ && fn.Synthetic == "" && len(fn.Blocks) > 0 && fn.Signature.Recv() != nil {
+			fns = append(fns, fn)
+		}
+	}
+	sort.Slice(fns, func(i, j int) bool { return fns[i].String() < fns[j].String() })
+	n := 0
+	for _, fn := range fns {
+		for _, h := range loopHeaders(fn) {
+			// the call, inside this loop, of the Evaluate method of the function's own receiver on an element of a list
+			var rec *ssa.Call
+			for _, b := range fn.Blocks {
+				if b != h && !loopBlock(b, h) {
+					continue
+				}
+				for _, ins := range b.Instrs {
+					c, ok := ins.(*ssa.Call)
+					if !ok {
+						continue
+					}
+					cal := c.Call.StaticCallee()
+					if cal == nil || cal.Name() != "Evaluate" || pkgPathOf(cal) != load.PkgQ || cal.Signature.Recv() == nil || len(c.Call.Args) < 3 {
+						continue
+					}
+					if c.Call.Args[0] != ssa.Value(fn.Params[0]) {
+						continue
+					}
+					env := &descEnv{p: p, params: map[*ssa.Parameter]string{}}
+					if strings.Contains(env.desc(c.Call.Args[2], 0), "Value.Index(") {
+						rec = c
+					}
+				}
+			}
+			if rec == nil {
+				continue
+			}
+			n++
+			o := r.Add("R16.m", "mapping loop of "+load.FuncName(fn), p.Pos(rec.Pos()), "one appended result per element")
+			var body *ssa.BasicBlock
+			for _, s := range h.Succs {
+				if loopBlock(s, h) {
+					body = s
+				}
+			}
+			if body == nil {
+				o.Unknown("loop body not found")
+				continue
+			}
+			paths, capped := simplePaths(body, map[*ssa.BasicBlock]bool{h: true}, 500)
+			if capped {
+				o.Unknown("too many paths through the loop body")
+				continue
+			}
+			bad := ""
+			np := 0
+			for _, path := range paths {
+				if path[len(path)-1] != h {
+					continue // leaves the function (error return)
+				}
+				np++
+				appended := false
+				for _, b := range path[:len(path)-1] {
+					for _, ins := range b.Instrs {
+						c, ok := ins.(*ssa.Call)
+						if !ok {
+							continue
+						}
+						if bi, isB := c.Call.Value.(*ssa.Builtin); isB && bi.Name() == "append" {
+							appended = true
+						}
+						if cal := c.Call.StaticCallee(); cal != nil && cal.Pkg != nil && cal.Pkg.Pkg.Path() == "reflect" && (cal.Name() == "Append" || cal.Name() == "AppendSlice") {
+							appended = true
+						}
+					}
+				}
+				if !appended {
+					bad = "a path through the loop body " + pathDesc(p, path) + " reaches the next element without appending a result for this one"
+				}
+			}
+			// the element handed down is the element at the loop counter
+			elemOK := false
+			if len(rec.Call.Args) >= 3 {
+				env := &descEnv{p: p, params: map[*ssa.Parameter]string{}}
+				d := env.desc(rec.Call.Args[2], 0)
+				if strings.HasPrefix(d, "Value.Interface(Value.Index(") {
+					elemOK = true
+				}
+			}
+			switch {
+			case np == 0:
+				o.Unknown("no path through the loop body goes on to the next element")
+			case bad != "":
+				o.Fail(bad + ": the result list is shorter than the input list and the entries after the skipped element move up (an accessor applied to a list no longer maps over it element by element; '| Length' differs from the Go API)")
+			case !elemOK:
+				o.Fail("the value handed to the recursive evaluation is not the element of the input at the loop counter")
+			default:
+				o.OK(fmt.Sprintf("%d path(s) to the next element, each appends; the element evaluated is in.Index(i)", np))
+			}
+		}
+	}
+	if n == 0 {
+		r.Add("R16.m", "mapping loops", "-", "anchor").Unknown("no Evaluate method maps itself over the elements of a list")
 	}
 }
